@@ -40,6 +40,12 @@ impl<A: AcceptableMasterList, C: Clock, F: Filter, R: Rng, S: PtpInstanceStateMu
                 let time_properties_ds = &mut state.time_properties_ds;
                 let path_trace_ds = &mut state.path_trace_ds;
 
+                // An announce with stepsRemoved of 255 or more never qualifies
+                // (IEEE 1588-2019 9.3.2.5 d), so it must not update the data sets either.
+                if announce.steps_removed >= 255 {
+                    return false;
+                }
+
                 current_ds.steps_removed = announce.steps_removed + 1;
 
                 parent_ds.parent_port_identity = announce.header.source_port_identity;
